@@ -43,9 +43,26 @@ fn tmp_of(dst: &Path) -> PathBuf {
     PathBuf::from(s)
 }
 
-/// The hub's current blake3 for `dst`, or `None` if absent.
-fn current_hash(dst: &Path) -> Option<Hash> {
-    super::meta::fingerprint_path(dst).ok().map(|f| f.blake3)
+/// The hub's current blake3 for `dst`, or `None` if there is no file there. A file that
+/// exists but cannot be read is an error, never "absent": treating it as absent would let
+/// an `expected: None` write or delete replace content the client has never seen.
+fn current_hash(dst: &Path) -> std::io::Result<Option<Hash>> {
+    use std::io::ErrorKind;
+    match std::fs::symlink_metadata(dst) {
+        Err(e) if matches!(e.kind(), ErrorKind::NotFound | ErrorKind::NotADirectory) => {
+            return Ok(None)
+        }
+        Err(e) => return Err(e),
+        // a directory holds no content of its own
+        Ok(m) if m.is_dir() => return Ok(None),
+        Ok(_) => {}
+    }
+    match super::meta::fingerprint_path(dst) {
+        Ok(f) => Ok(Some(f.blake3)),
+        // removed by another server since the metadata call
+        Err(e) if e.kind() == ErrorKind::NotFound => Ok(None),
+        Err(e) => Err(e),
+    }
 }
 
 /// Run `f` while holding the tree's exclusive commit lock (brief, local — never
@@ -182,7 +199,10 @@ fn handle_put<R: Read, W: Write>(
         return write_frame(w, &Response::Error("content hash mismatch".into()));
     }
     let resp = with_commit_lock(lockdir, || {
-        let current = current_hash(&dst);
+        let Ok(current) = current_hash(&dst) else {
+            let _ = std::fs::remove_file(&tmp);
+            return Response::Error("cannot read the current content".into());
+        };
         match cas_decide(current, expected) {
             Cas::Commit => {
                 // Never acknowledge a commit that did not happen (e.g. the path is a directory).
@@ -224,7 +244,9 @@ fn handle_delete<W: Write>(
         return write_frame(w, &Response::Error("bad path".into()));
     };
     let resp = with_commit_lock(lockdir, || {
-        let current = current_hash(&dst);
+        let Ok(current) = current_hash(&dst) else {
+            return Response::Error("cannot read the current content".into());
+        };
         match cas_decide(current, expected) {
             Cas::Commit => {
                 let _ = std::fs::remove_file(&dst);
